@@ -156,7 +156,7 @@ def _ct_rule(ctx, fn, want_subtypes, allow_suffix):
     if b is None:
         return
     short = fn.split('::')[-1]
-    module = fn.rsplit('::', 1)[0] + '::'
+    module = RQ + 'body::'          # the gate's own module and its siblings (a shared content-type helper lives next to them)
     dcache = {}
 
     class Sem(StdSem):
@@ -203,6 +203,15 @@ def _ct_rule(ctx, fn, want_subtypes, allow_suffix):
     # the constants compared (in the function, its private helpers inlined, and their closures)
     ib = inlined(ctx.fb, b)
     parts = [ib] + closures_of(ctx.fb, ib)
+    # .. and the functions of the body module reachable from the gate, also as function values (`check(headers, is_json)`)
+    from ..callgraph import CallGraph
+    if ('cg', id(ctx.fb)) not in dcache:
+        dcache[('cg', id(ctx.fb))] = CallGraph(ctx.fb, [(CR, 'Rlib')])
+    for f in sorted(dcache[('cg', id(ctx.fb))].reachable({fn})):
+        if f.startswith(module) and f != fn:
+            for x in ctx.fb.bodies_of_item(CR, f):
+                if not x.is_promoted and x.nid not in {y.nid for y in parts} and x.nroot not in ib.raw.get('extra_roots', []):
+                    parts.append(x)
     for name, want in (('T', {'application', 'const:mime::APPLICATION'}), ('U', want_subtypes)):
         for x in parts:
             defs = Defs(x)
